@@ -150,6 +150,7 @@ type LeafOpts struct {
 	SKI    []byte
 	NoKU   bool   // no key usage extension at all
 	RawSub []byte // complete DER subject name (instead of CN)
+	Extra  []pkix.Extension // raw extensions (override what the other fields would produce, e.g. the authority key identifier)
 }
 
 type Leaf struct {
@@ -187,6 +188,7 @@ func (ca *CA) IssueLeaf(o LeafOpts) *Leaf {
 	if o.RawSub != nil {
 		tmpl.RawSubject = o.RawSub
 	}
+	tmpl.ExtraExtensions = o.Extra
 	der, err := x509.CreateCertificate(rand.Reader, tmpl, ca.Cert, key.Public(), ca.Key)
 	must(err)
 	cert, err := x509.ParseCertificate(der)
